@@ -3,6 +3,8 @@
 import json, os, subprocess, sys, tempfile, xml.etree.ElementTree as ET
 base = json.load(open("/root/.vp/BASELINE.json"))
 env = dict(os.environ); env.pop("BIONUMPY_BIONUMPY_VERIF", None)
+import fcntl
+_lk = open("/tmp/.bnp_baseline.lock", "w"); fcntl.flock(_lk, fcntl.LOCK_EX)  # one test run at a time (tests write files in /repo)
 with tempfile.TemporaryDirectory() as d:
     x = os.path.join(d, "j.xml")
     subprocess.run(["/venv/bin/python", "-m", "pytest", "-ra", "-q", "-p", "no:cacheprovider", "--timeout=900",
